@@ -709,5 +709,65 @@ def R4_token_view_layout(run):
                       expected="offset %d size %d" % (o, s), found=str(got), detail="offset %d size %d" % (o, s))
 
 
+SPL_TOKEN_ID = bytes.fromhex("06ddf6e1d765a193d9cbe146ceeb79ac1cb485ed5f5b37913a8cf5857eff00a9")       # TokenkegQfeZyiNwAJbNbGKPFXCWuBvf9Ss623VQ5DA
+SPL_TOKEN_2022_ID = bytes.fromhex("06ddf6e1ee758fde18425dbce46ccddab61afc4d83b90d27febdf928d8a18bfc")  # TokenzQdBNbLqP5VEhdkAS6EPFLC1PHnBqCXEpPxuEb
+
+
+def R4b_token_account_loader(run):
+    run.title("R4b", "Pinocchio load_token_program_account: every success passes check_owner_program(account, TOKEN_PROGRAM_ID | TOKEN_2022_PROGRAM_ID)? with the constant selected "
+                     "by the owner's last byte, the constants are SPL's program ids, and multisig-sized, too short, uninitialised and wrong-account-type data is refused")
+    facts = run.facts
+    PA = "pinocchio::constants::address::"
+    AL = "pinocchio::utils::account_load::"
+    tb, t22 = facts.const_bytes(PA + "TOKEN_PROGRAM_ID"), facts.const_bytes(PA + "TOKEN_2022_PROGRAM_ID")
+    run.check("R4b", "token-program-ids", tb == SPL_TOKEN_ID and t22 == SPL_TOKEN_2022_ID, "Pinocchio TOKEN_PROGRAM_ID / TOKEN_2022_PROGRAM_ID are not SPL's program ids", detail="Tokenkeg.. / Tokenz..")
+    lb, lb22 = facts.const_value(AL + "LAST_BYTE_OF_TOKEN_PROGRAM_ID"), facts.const_value(AL + "LAST_BYTE_OF_TOKEN_2022_PROGRAM_ID")
+    run.check("R4b", "last-bytes", lb == SPL_TOKEN_ID[31] and lb22 == SPL_TOKEN_2022_ID[31] and lb != lb22, "LAST_BYTE_OF_TOKEN(_2022)_PROGRAM_ID = %s / %s do not match the ids' last bytes" % (lb, lb22),
+              detail="0x%02x / 0x%02x" % (SPL_TOKEN_ID[31], SPL_TOKEN_2022_ID[31]))
+    fn = facts.need_fn(AL + "load_token_program_account")
+    run.touch(fn)
+    pv = prov_of(fn)
+    owner_calls = []
+    for bi, t in fn.calls():
+        if (callee_path(t) or "").endswith("check_owner_program"):
+            args = [strip(pv.operand(a, bi, len(fn.blocks[bi]["s"]))) for a in t["a"]]
+            k = args[1]
+            k = strip(k[1]) if k[0] == "ref" else k
+            owner_calls.append((bi, is_param(args[0], "account_info"), (k[2] or "").rsplit("::", 1)[-1] if k[0] == "const" else sh(k, 40), cfg.result_checked(fn, bi)))
+    ok = sorted(c[2] for c in owner_calls) == ["TOKEN_2022_PROGRAM_ID", "TOKEN_PROGRAM_ID"] and all(c[1] and c[3] for c in owner_calls)
+    run.check("R4b", "owner-checks", ok, "load_token_program_account's owner checks are %s; expected check_owner_program(account_info, &TOKEN_PROGRAM_ID)? and (.., &TOKEN_2022_PROGRAM_ID)?, both checked" %
+              [(c[2], c[1], c[3]) for c in owner_calls], loc=fn.loc(), detail="owner compared with the two SPL program id constants")
+    if ok:
+        blocks = [c[0] for c in owner_calls]
+        leak = cfg.success_reach(fn, 0, cut_blocks=blocks)
+        run.check("R4b", "owner-check-on-every-success", not leak, "a success return of load_token_program_account avoids both owner checks", loc=fn.loc(), detail="no success path around check_owner_program")
+        # the arm taken for each last byte
+        sw = [(bi, bb["t"]) for bi, bb in enumerate(fn.blocks) if bb["t"]["k"] == "switch" and mentions(pv.operand(bb["t"]["d"], bi, len(bb["s"])), lambda s_: s_[0] == "call" and s_[1].endswith("::owner"))]
+        good = len(sw) == 1
+        if good:
+            bi, t = sw[0]
+            arms = {int(v): b for v, b in t["ts"]}
+            by_const = {c[2]: c[0] for c in owner_calls}
+            good = set(arms) == {lb, lb22} and by_const["TOKEN_PROGRAM_ID"] in cfg.reach(fn, arms[lb], cut_blocks=[bi]) and by_const["TOKEN_2022_PROGRAM_ID"] not in cfg.reach(fn, arms[lb], cut_blocks=[bi] + [by_const["TOKEN_PROGRAM_ID"]]) and \
+                by_const["TOKEN_2022_PROGRAM_ID"] in cfg.reach(fn, arms[lb22], cut_blocks=[bi]) and not cfg.success_reach(fn, t["o"], cut_blocks=[bi])
+        run.check("R4b", "arm-by-last-byte", good, "the owner's last byte does not select the matching program-id check (other owners must fail)", loc=fn.loc(), detail="0xa9 => Token, 0xfc => Token-2022, else error")
+    want = {"multisig": False, "short": False, "uninit": False, "type": False}
+    for at in A.atoms(fn):
+        c = at.cond()
+        if not c:
+            continue
+        txt = show(at.term)
+        if c[0] == "Eq" and "MULTISIG_ACCOUNT_LEN" in txt and at.true_fail:
+            want["multisig"] = True
+        if c[0] == "Le" and "IS_INITIALIZED_OFFSET" in txt and "data_len" in txt and at.true_fail:
+            want["short"] = True
+        if c[0] == "Eq" and "IS_INITIALIZED_OFFSET" in txt and const_val(c[2]) == 0 and at.true_fail:
+            want["uninit"] = True
+        if c[0] == "Ne" and "ACCOUNT_TYPE" in txt and at.true_fail:
+            want["type"] = True
+    run.check("R4b", "data-checks", all(want.values()), "load_token_program_account lost a refusal: %s" % sorted(k for k, v in want.items() if not v), loc=fn.loc(),
+              detail="multisig length, length <= init offset, init byte 0, account-type byte")
+
+
 RULES = [R1_effect_requires_authority, R1b_no_unlisted_writers, R1c_migration_exception, R2_authority_helpers,
-         R3_pinocchio_labelling, R4_token_view_layout]
+         R3_pinocchio_labelling, R4_token_view_layout, R4b_token_account_loader]
